@@ -52,6 +52,12 @@ def families(tier, seed):
                 out.append(_mk(f'make_streett_transducer holds={nh} goals={ng} L=2 qinit={q} {mn} {sh.name}',
                                gt.h_streett_transducer, sh,
                                dict(moore=moore, plus_one=plus_one, n_holds=nh, n_goals=ng, L=2, qinit=q)))
+            if tier != 'quick' and sh in shs[:2]:
+                # longer iterate lists (the loops over yj[1:] / xjk run twice)
+                for nh, ng in ((1, 1), (2, 1), (1, 2)):
+                    out.append(_mk(f'make_streett_transducer holds={nh} goals={ng} L=3 qinit={QINITS[2]} {mn} {sh.name}',
+                                   gt.h_streett_transducer, sh,
+                                   dict(moore=moore, plus_one=plus_one, n_holds=nh, n_goals=ng, L=3, qinit=QINITS[2])))
     n = 120 if tier == 'quick' else 1500
     for i in range(8):
         out.append(dict(name=f'closed-loop monitor streett games part {i}', run=gm.monitor('streett', seed * 100 + i, n // 8, 'cudd'), label='bounded'))
@@ -63,5 +69,5 @@ def coverage_extra(results):
     built = sum((r.get('bounded') or {}).get('implementations_built', 0) for r in results)
     reach = sum((r.get('bounded') or {}).get('reachable_states', 0) for r in results)
     return dict(implementations_built=built, reachable_states_analysed=reach,
-                bounded_parameters=dict(iterate_list_length='L = 2', declaration_shape='3 quick / 7 thorough',
+                bounded_parameters=dict(iterate_list_length='L = 2 (thorough: also L = 3 on two shapes)', declaration_shape='3 quick / 7 thorough',
                                         monitor_games='120 quick / 1500 thorough (seeded by VERIF_SEED)'))
